@@ -43,9 +43,13 @@ impl<VM: VMBinding, P: ConcurrentPlan<VM = VM> + PlanTraceObject<VM>, const KIND
     fn slow(&mut self, _src: Option<ObjectReference>, _slot: VM::VMSlot, old: ObjectReference) {
         #[cfg(mmtk_verif)]
         crate::verif::emit(|| {
+            // su: unlog bit of the source object at the time its old value is recorded (-1: no source)
             format!(
-                "\"ev\":\"SATBPush\",\"old\":{}",
-                crate::verif::proj_addr(old.to_raw_address())
+                "\"ev\":\"SATBPush\",\"old\":{},\"su\":{}",
+                crate::verif::proj_addr(old.to_raw_address()),
+                _src.map_or(-1, |s| Self::UNLOG_BIT_SPEC
+                    .load_atomic::<VM, u8>(s, None, Ordering::SeqCst)
+                    as i32)
             )
         });
         self.satb.push(old);
